@@ -431,6 +431,45 @@ class Arr:
         return 'Arr(%s,%s)' % (s.name, s.dtype)
 
 
+class TensorTok(Arr):
+    """torch.load result: element type unknown (symbolic kind and item size); conversions change the dtype label"""
+
+    def is_floating_point(s):
+        return decide(z3.Bool('pt_is_float'))
+
+    def is_complex(s):
+        return False
+
+    def element_size(s):
+        from vlib.symex import SInt
+        return SInt(z3.Int('pt_itemsize'))
+
+    def _conv(s, to):
+        return TensorTok(s.name, 'converted:%s' % to)
+
+    def float(s):
+        return s._conv('float32')
+
+    def double(s):
+        return s._conv('float64')
+
+    def half(s):
+        return s._conv('float16')
+
+    def to(s, *a, **k):
+        return s._conv(a[0] if a else k.get('dtype', '?'))
+
+    type = to
+
+    def cpu(s):
+        return s
+
+    detach = contiguous = cpu
+
+    def numpy(s):
+        return Arr(s.name + '.numpy()', s.dtype)
+
+
 def run_npz(cfg):
     viol = []
     ob = dis = 0
@@ -453,7 +492,7 @@ def run_npz(cfg):
             return Arr('raw', dtype if dtype is not None else 'float64-default')
     ns = loader.load_unit('util', dict(np=NP), name='pydrobert.speech.util')
     torch_stub = types.ModuleType('torch')
-    torch_stub.load = lambda path, map_location=None, **kw: Arr('pt:%s' % map_location)
+    torch_stub.load = lambda path, map_location=None, **kw: TensorTok('pt:%s' % map_location)
     cases = []
     for dt in (None, 'DT'):
         for key in (None, 'KEY'):
@@ -465,17 +504,25 @@ def run_npz(cfg):
     sys.modules['torch'] = torch_stub
     try:
         for fn, path, dt, key, want in cases:
-            ob += 1
-            try:
-                got = ns[fn](path, dt, key)
-            except Exception as e:
-                symex.guard(e)
-                viol.append(dict(kind='npz', what='%s(%r, dtype=%r, key=%r) raised %s' % (fn, path, dt, key, type(e).__name__), fn=fn, **{'class': 'readers/' + fn}))
-                continue
-            if got == want:
-                dis += 1
-            else:
-                viol.append(dict(kind='npz', what='%s(%r, dtype=%r, key=%r) returned %r, documented %r' % (fn, path, dt, key, got, want), fn=fn, **{'class': 'readers/' + fn}))
+            def body(fn=fn, path=path, dt=dt, key=key):
+                Ctx.cur.assume(z3.Or([z3.Int('pt_itemsize') == k_ for k_ in (1, 2, 4, 8)]))
+                try:
+                    return ('ok', ns[fn](path, dt, key))
+                except Exception as e:
+                    symex.guard(e)
+                    return ('raised', type(e).__name__)
+            for ctx, res in explore(body, max_paths=64):
+                if res is None:
+                    continue
+                ob += 1
+                m = ctx.model()
+                extra = dict(pt_is_float=z3.is_true(m.eval(z3.Bool('pt_is_float'), True)), pt_itemsize=m.eval(z3.Int('pt_itemsize'), True).as_long()) if fn == '_torch_read_signal' else {}
+                if res[0] == 'raised':
+                    viol.append(dict(kind='npz', what='%s(%r, dtype=%r, key=%r) raised %s' % (fn, path, dt, key, res[1]), fn=fn, **extra, **{'class': 'readers/' + fn}))
+                elif res[1] == want:
+                    dis += 1
+                else:
+                    viol.append(dict(kind='npz', what='%s(%r, dtype=%r, key=%r) returned %r, documented %r' % (fn, path, dt, key, res[1], want), fn=fn, **extra, **{'class': 'readers/' + fn}))
     finally:
         if saved is not None:
             sys.modules['torch'] = saved
@@ -684,6 +731,24 @@ def replay(w):
                     if got.shape != want.shape or not np.array_equal(got, want):
                         return {'reproduced': True, 'detail': 'wav with %d frame(s) x %d channel(s): read shape %s, stored %s' % (frames, nc, got.shape, want.shape)}
             return {'reproduced': False, 'detail': 'wav round trips'}
+        if k == 'npz' and w.get('fn') == '_torch_read_signal':
+            import torch
+            for tdt in (torch.float16, torch.float32, torch.float64, torch.int8, torch.uint8, torch.int16, torch.int32, torch.int64):
+                t = (torch.arange(12).reshape(4, 3) - 5).to(tdt) if tdt != torch.uint8 else torch.arange(12).reshape(4, 3).to(tdt)
+                p = os.path.join(work, 'a.pt')
+                torch.save(t, p)
+                want = t.numpy()
+                for how, got in (('path', lambda: util.read_signal(p)), ('stream', lambda: util.read_signal(open(p, 'rb'), force_as='pt'))):
+                    try:
+                        g = got()
+                    except Exception as e:
+                        return {'reproduced': True, 'detail': 'reading a %s tensor from a .pt %s raised %s: %s' % (tdt, how, type(e).__name__, e)}
+                    if g.dtype != want.dtype or g.shape != want.shape or not np.array_equal(g, want):
+                        return {'reproduced': True, 'detail': '.pt file holding a %s tensor read (by %s, no dtype) as %s%s, stored %s%s' % (tdt, how, g.dtype, g.shape, want.dtype, want.shape)}
+                g = util.read_signal(p, dtype=np.float64)
+                if g.dtype != np.float64:
+                    return {'reproduced': True, 'detail': 'dtype argument ignored for .pt'}
+            return {'reproduced': False, 'detail': '.pt files round trip for every element type'}
         if k == 'npz':
             p = os.path.join(work, 'a.npz')
             sig = rng.randn(50)
